@@ -43,6 +43,7 @@ var lenientInit = map[string]bool{
 	"internal/poll": true,
 	// only for its error values (ErrBadHandshake is compared by transport/ws); everything behind it is stubbed (vws)
 	"github.com/gorilla/websocket": true,
+	"go.nanomsg.org/mangos/v3/macat/macat": true,
 }
 
 func loadProgram(repo, harnessDir string) (*Program, error) {
@@ -65,7 +66,7 @@ func loadProgram(repo, harnessDir string) (*Program, error) {
 	if err != nil {
 		return nil, err
 	}
-	patterns := []string{".", "./internal/core", "./protocol/...", "./transport/...", "./macat", "./errors"}
+	patterns := []string{".", "./internal/core", "./protocol/...", "./transport/...", "./macat", "./macat/macat", "./errors"}
 	seen := map[string]bool{}
 	for p := range overlay {
 		d := filepath.Dir(p)
@@ -157,7 +158,9 @@ func (vm *VM) needsInit(g *ssa.Global) bool {
 
 func (vm *VM) strictPkg(p *ssa.Package) bool {
 	path := p.Pkg.Path()
-	return strings.HasPrefix(path, "go.nanomsg.org/mangos/v3")
+	// the macat command's main package only copies os.Args / os.Exit / os.Stderr into variables that the harness
+	// replaces: its initialiser runs leniently
+	return strings.HasPrefix(path, "go.nanomsg.org/mangos/v3") && path != "go.nanomsg.org/mangos/v3/macat/macat"
 }
 
 // callInit runs (or skips) a package initialiser according to policy.
